@@ -72,12 +72,20 @@ def main(tier: str) -> int:
             d = root / "home" / "user" / f"proj{i}"
             # deep location of the target so that -T / -H really alter its rendering
             deep = "pkg/very/deep/dir/with/many/parts"
+            tname = "target.py"
             files = dict(prog["files"])
             tgt = files.pop("target.py")
-            files[f"{deep}/target.py"] = tgt
+            if i % 2 == 1:
+                # the imported module lives at a path that shares its first and its last components with the target's:
+                # truncated (-T) renderings of the two paths coincide, the files do not
+                deep, tname = "app/api/v1/handlers/users", "views.py"
+                twin = "app.api.v2.handlers.users.views"
+                files[twin.replace(".", "/") + ".py"] = files.pop("helper.py")
+                tgt = tgt.replace("from helper import", f"from {twin} import")
+            files[f"{deep}/{tname}"] = tgt
             prog2 = {"files": files, "plan": prog["plan"]}
             D.materialise(prog2, d)
-            base = D.run_rattr(d, ["-w", "all", "-o", "silent", f"{deep}/target.py"])
+            base = D.run_rattr(d, ["-w", "all", "-o", "silent", f"{deep}/{tname}"])
             tot = 0
             if base["trace"] and base["trace"]["state"]:
                 tot = base["trace"]["state"]["target"] + base["trace"]["state"]["simpl"]
@@ -90,7 +98,7 @@ def main(tier: str) -> int:
             for sname, sargs in settings:
                 for out in (["results", "ir"] if tier != "quick" else [["results", "ir"][i % 2]]):
                     for pmode in ("rel", "abs"):
-                        tpath = f"{deep}/target.py" if pmode == "rel" else str(d / deep / "target.py")
+                        tpath = f"{deep}/{tname}" if pmode == "rel" else str(d / deep / tname)
                         key = (i, sname, out, pmode)
                         for wl, H, Tt in itertools.product(WL, (False, True), (False, True)):
                             args = ["-w", wl, "-o", out, *sargs]
